@@ -224,8 +224,8 @@ pub fn builtin_case_o(text: &str, orc: &crate::mid::Oracle, h: usize, seed: Opti
     let want_2 = orc.two.clone();
     let (heu, hname) = builtin(h);
     let bd = guard(|| BdAdf::from_parser(&parser)).ok();
-    for obj in 0..4 {
-        let oname = ["native", "hybrid(pre-grounded)", "reimported(serde)", "reimported(node list)"][obj];
+    for obj in 0..5 {
+        let oname = ["native", "hybrid(pre-grounded)", "reimported(serde)", "reimported(node list)", "native+gone-listener"][obj];
         if obj == 1 && (bd.is_none() || seed.is_some()) {
             continue;
         }
@@ -237,7 +237,8 @@ pub fn builtin_case_o(text: &str, orc: &crate::mid::Oracle, h: usize, seed: Opti
                 0 => Adf::from_parser(&parser),
                 1 => bd.as_ref().unwrap().hybrid_step(),
                 2 => crate::c14::roundtrip_serde(&Adf::from_parser(&parser)),
-                _ => crate::c14::roundtrip_dblayer(&Adf::from_parser(&parser)),
+                3 => crate::c14::roundtrip_dblayer(&Adf::from_parser(&parser)),
+                _ => crate::sem::with_gone_listener(Adf::from_parser(&parser)),
             };
             if let Some(k) = seed {
                 a.seed(seed_bytes(k));
